@@ -22,6 +22,20 @@ pub struct MainEventLoop {
 	endpoints: HashMap<String, EndpointSync>,
 }
 
+#[cfg(feature = "breard_r_acmed_verif")]
+impl MainEventLoop {
+	#[allow(clippy::type_complexity)]
+	pub fn verif_parts(
+		&self,
+	) -> (
+		&HashMap<String, Certificate>,
+		&HashMap<String, AccountSync>,
+		&HashMap<String, EndpointSync>,
+	) {
+		(&self.certificates, &self.accounts, &self.endpoints)
+	}
+}
+
 impl MainEventLoop {
 	pub async fn new(config_file: &str, root_certs: &[&str]) -> Result<Self, Error> {
 		let cnf = config::from_file(config_file)?;
